@@ -39,7 +39,8 @@ interface Animal implements Ent { id: ID! legs: Int }
 type Dog implements Ent & Animal { id: ID! legs: Int color: Color owner: Person }
 type Person implements Ent { id: ID! name: String pets(first: Int = 10): [Animal!]! born: Date }
 input Filter { and: [Filter!] or: [Filter!] not: Filter color: Color = RED name: String class: Int camelCase: [Int!] = [1] born: Date file: Upload }
-input Unreferenced { x: Int }
+input Unreferenced { x: Int inner: UnreferencedInner loop: Unreferenced }
+input UnreferencedInner { y: Int back: Unreferenced }
 type RootQ { find(f: Filter, limit: Int! = 5): [Ent!]! person(id: ID!): Person }
 type RootM { rename(id: ID!, name: String!, when: Date): Person upload(file: Upload!, files: [Upload!]): Boolean }
 type RootS { changed(color: Color): Dog! }
